@@ -317,7 +317,7 @@ def load_known_findings(prop):
                 d = json.loads(line)
             except json.JSONDecodeError:
                 continue
-            if d.get("property") == prop and d.get("status") == "open":
+            if (d.get("property") == prop or prop in d.get("also", [])) and d.get("status") == "open":
                 out.append(d)
     return out
 
